@@ -291,7 +291,8 @@ pub fn run_check(def: &'static CheckDef, thorough: bool, seed: u64, budget_s: f6
         },
         "assumptions": def.assumptions,
     });
-    let dir = format!("{}/evidence", verif_root());
+    // (maintenance: sensitivity runs against seeded changes write their evidence elsewhere)
+    let dir = std::env::var("VERIF_EVIDENCE_DIR").unwrap_or_else(|_| format!("{}/evidence", verif_root()));
     let _ = std::fs::create_dir_all(&dir);
     if let Err(e) = std::fs::write(format!("{}/{}.json", dir, def.id), serde_json::to_string_pretty(&ev).unwrap()) {
         eprintln!("cannot write evidence: {}", e);
